@@ -1,5 +1,6 @@
 use crate::Monitor;
 pub mod c01;
+pub mod selftest;
 pub mod c03;
 pub mod c04;
 pub mod cone;
@@ -37,6 +38,7 @@ pub fn lookup(id: &str) -> Option<Monitor> {
     "C17" => Some(c17::monitor()),
     "C18" => Some(c18::monitor()),
     "C19" => Some(c19::monitor()),
+    "SELFTEST" => Some(selftest::monitor()),
     _ => None,
   }
 }
